@@ -295,11 +295,15 @@ def case_nd(ctx, index, rng: random.Random):
         kw = {}
         if wts is not None:
             kw["weights"] = np.asarray(wts)
-        ha = physt.h(rows.copy(), mkbins(), **kw)
-        st = _numeric_state(ha, False)
-        if not keep_missed:
-            st["missed"] = 0.0  # h() has no keep_missed switch; only contents are comparable
-        finals["construct"] = st
+        if rng.random() < 0.5 or with_nan:  # (rows with NaN are dropped by the facade only)
+            ha = physt.h(rows.copy(), mkbins(), keep_missed=keep_missed, **kw)
+        else:
+            ha = (Histogram2D if d == 2 else HistogramND).from_calculate_frequencies(rows.copy(), mkbins(), keep_missed=keep_missed, **kw)
+        if bool(ha.keep_missed) != keep_missed:
+            rec.mon("C03.history.equiv")
+            rec.fail(monitor="C03.history.equiv", op="h", symptom="the keep_missed switch given at construction is not the one the histogram reports", diff=["keep_missed"],
+                     detail={"asked": keep_missed, "got": bool(ha.keep_missed)})
+        finals["construct"] = _numeric_state(ha, False)
     except Exception as e:
         rec.mon("C03.history.equiv")
         rec.fail(monitor="C03.history.equiv", op="h", symptom=f"construction refused a valid input: {type(e).__name__}", diff=["raised"],
@@ -335,10 +339,6 @@ def case_nd(ctx, index, rng: random.Random):
         rec.mon("C03.history.equiv")
         rec.fail(monitor="C03.history.equiv", op="fill_n", symptom=f"fill_n refused a valid batch: {type(e).__name__}", diff=["raised"],
                  detail={"error": str(e)[:200], **desc})
-    if not keep_missed and "construct" in finals:
-        for k in finals:
-            finals[k] = dict(finals[k])
-            finals[k]["missed"] = 0.0 if k == "construct" else finals[k]["missed"]
     _compare_paths(rec, finals, desc, rows, False, nan_in_fill=with_nan)
     fin = rows[~np.isnan(rows).any(axis=1)]
     adjacent = False
